@@ -333,6 +333,15 @@ where
 impl<K, V> TreeBin<K, V> {
     /// Acquires write lock for tree restucturing.
     fn lock_root(&self, guard: &Guard<'_>, collector: &Collector) {
+        #[cfg(flurry_verif)]
+        crate::verif::word_op(
+            &self.lock_state,
+            crate::verif::word::LOCK_STATE,
+            crate::verif::access::CAS,
+            Ordering::SeqCst,
+            0,
+            WRITER as isize,
+        );
         if self
             .lock_state
             .compare_exchange(0, WRITER, Ordering::SeqCst, Ordering::Relaxed)
@@ -345,6 +354,15 @@ impl<K, V> TreeBin<K, V> {
 
     /// Releases write lock for tree restructuring.
     fn unlock_root(&self) {
+        #[cfg(flurry_verif)]
+        crate::verif::word_op(
+            &self.lock_state,
+            crate::verif::word::LOCK_STATE,
+            crate::verif::access::STORE,
+            Ordering::Release,
+            0,
+            0,
+        );
         self.lock_state.store(0, Ordering::Release);
     }
 
@@ -353,9 +371,27 @@ impl<K, V> TreeBin<K, V> {
         let mut waiting = false;
         let mut state: i64;
         loop {
+            #[cfg(flurry_verif)]
+            crate::verif::word_op(
+                &self.lock_state,
+                crate::verif::word::LOCK_STATE,
+                crate::verif::access::LOAD,
+                Ordering::Acquire,
+                0,
+                0,
+            );
             state = self.lock_state.load(Ordering::Acquire);
             if state & !WAITER == 0 {
                 // there are no writing or reading threads
+                #[cfg(flurry_verif)]
+                crate::verif::word_op(
+                    &self.lock_state,
+                    crate::verif::word::LOCK_STATE,
+                    crate::verif::access::CAS,
+                    Ordering::SeqCst,
+                    state as isize,
+                    WRITER as isize,
+                );
                 if self
                     .lock_state
                     .compare_exchange(state, WRITER, Ordering::SeqCst, Ordering::Relaxed)
@@ -390,6 +426,15 @@ impl<K, V> TreeBin<K, V> {
             } else if state & WAITER == 0 {
                 // we have not indicated yet that we are waiting, so we need to
                 // do that now
+                #[cfg(flurry_verif)]
+                crate::verif::word_op(
+                    &self.lock_state,
+                    crate::verif::word::LOCK_STATE,
+                    crate::verif::access::CAS,
+                    Ordering::SeqCst,
+                    state as isize,
+                    (state | WAITER) as isize,
+                );
                 if self
                     .lock_state
                     .compare_exchange(state, state | WAITER, Ordering::SeqCst, Ordering::Relaxed)
@@ -401,8 +446,12 @@ impl<K, V> TreeBin<K, V> {
                     assert!(waiter.is_null());
                 }
             } else if waiting {
+                #[cfg(flurry_verif)]
+                crate::verif::at(crate::verif::PARK_PRE, &[]);
                 park();
             }
+            #[cfg(flurry_verif)]
+            crate::verif::at(crate::verif::SPIN, &[crate::verif::site::SPIN_CONTENDED]);
             std::hint::spin_loop();
         }
     }
@@ -439,7 +488,27 @@ impl<K, V> TreeBin<K, V> {
         let bin_deref = unsafe { bin.deref() }.as_tree_bin().unwrap();
         let mut element = bin_deref.first.load(Ordering::SeqCst, guard);
         while !element.is_null() {
+            #[cfg(flurry_verif)]
+            crate::verif::word_op(
+                &bin_deref.lock_state,
+                crate::verif::word::LOCK_STATE,
+                crate::verif::access::LOAD,
+                Ordering::SeqCst,
+                0,
+                0,
+            );
             let s = bin_deref.lock_state.load(Ordering::SeqCst);
+            #[cfg(flurry_verif)]
+            if s & (WAITER | WRITER) == 0 {
+                crate::verif::word_op(
+                    &bin_deref.lock_state,
+                    crate::verif::word::LOCK_STATE,
+                    crate::verif::access::CAS,
+                    Ordering::SeqCst,
+                    s as isize,
+                    (s + READER) as isize,
+                );
+            }
             if s & (WAITER | WRITER) != 0 {
                 // another thread is modifying or wants to modify the tree
                 // (write). As long as that's the case, we follow the `next`
@@ -470,6 +539,15 @@ impl<K, V> TreeBin<K, V> {
                 } else {
                     TreeNode::find_tree_node(root, hash, key, guard)
                 };
+                #[cfg(flurry_verif)]
+                crate::verif::word_op(
+                    &bin_deref.lock_state,
+                    crate::verif::word::LOCK_STATE,
+                    crate::verif::access::ADD,
+                    Ordering::SeqCst,
+                    -READER as isize,
+                    0,
+                );
                 if bin_deref.lock_state.fetch_add(-READER, Ordering::SeqCst) == (READER | WAITER) {
                     // we were the last reader holding up a waiting writer, so
                     // we unpark the waiting writer by granting it a token
@@ -480,6 +558,15 @@ impl<K, V> TreeBin<K, V> {
                         // Since the thread behind the `waiter` handle is
                         // currently _waiting_ on said lock, the handle will not
                         // yet be dropped.
+                        #[cfg(flurry_verif)]
+                        crate::verif::at(
+                            crate::verif::UNPARK_PRE,
+                            &[&**unsafe {
+                                {
+                                    waiter.deref()
+                                }
+                            } as *const Thread as usize],
+                        );
                         unsafe { waiter.deref() }.unpark();
                     }
                 }
@@ -940,6 +1027,8 @@ impl<K, V> TreeBin<K, V> {
         bin: Shared<'g, BinEntry<K, V>>,
         guard: &'g Guard<'_>,
     ) {
+        #[cfg(flurry_verif)]
+        crate::verif::ptr_op::<BinEntry<K, V>>(crate::verif::RETIRE, bin.as_ptr() as usize, 0, &[]);
         guard.defer_retire(bin.as_ptr(), |link| {
             let bin = unsafe {
                 // SAFETY: `bin` is a `Linked<BinEntry<K, V>>`
